@@ -15,7 +15,7 @@ from .. import quat, stubs, sym
 from ..sarr import SArr, sarr
 from ..sym import R, real, rmax, rmin
 from . import mineral_h as mh
-from .common import all_eq, eq, np_installed, pydrex_modules, sample, only_path
+from .common import all_eq, eq, main_path, np_installed, pydrex_modules, sample, only_path
 
 TIMEOUT_MS = {"quick": 60000, "thorough": 300000}
 
@@ -87,9 +87,9 @@ def t_extract_vars(sess, n_grains):
 
     with np_installed(utils):
         paths, info = sym.explore(fn)
-    if len(paths) != 1 or paths[0].exc is not None:
-        raise sym.HarnessError(f"unexpected paths {paths} {info}")
-    p = only_path(sess, paths)
+    p = main_path(sess, paths, f"extract_vars[N={N}]")
+    if p is None:
+        return
     y0, y, (Fm, A, f) = p.value
     tag = f"extract_vars[N={N}]"
     for ob in p.obligations:
